@@ -223,6 +223,24 @@ class InputsToDict(FromManyInputs, ABC):
                     f"specification: {input_specification}"
                 ) from e
 
+    @staticmethod
+    def _same_specification(a, b) -> bool:
+        """Whether two input specifications describe the same node class."""
+
+        def same(x, y):
+            if x is y:
+                return True
+            if type(x) is not type(y):
+                return False
+            if isinstance(x, tuple):
+                return len(x) == len(y) and all(map(same, x, y))
+            return isinstance(x, (int, float, complex, str, bytes)) and x == y
+
+        if isinstance(a, list) or isinstance(b, list):
+            return isinstance(a, list) and isinstance(b, list) and a == b
+        return list(a) == list(b) and all(
+            a[k][0] == b[k][0] and same(a[k][1], b[k][1]) for k in a
+        )
 
 @classfactory
 def inputs_to_dict_factory(
@@ -235,6 +253,22 @@ def inputs_to_dict_factory(
         class_name_suffix = str(
             InputsToDict.hash_specification(input_specification)
         ).replace("-", "m")
+        # Classes are registered by name, and a hash is not an identity: a different
+        # specification with the same hash (e.g. defaults -1 and -2, or 1 and True)
+        # must not be handed the class made for the earlier one
+        base, n = class_name_suffix, 0
+        while not InputsToDict._same_specification(
+            input_specification,
+            getattr(
+                inputs_to_dict_factory.class_registry.get(
+                    f"{InputsToDict.__name__}{class_name_suffix}"
+                ),
+                "_input_specification",
+                input_specification,
+            ),
+        ):
+            n += 1
+            class_name_suffix = f"{base}_{n}"
     return (  # type: ignore[return-value]
         f"{InputsToDict.__name__}{class_name_suffix}",
         (InputsToDict,),
